@@ -123,6 +123,9 @@ def collision_programs(ctx):
             continue
         pa, pb = rng.sample(sorted(by_part), 2)
         ha, hb = rng.choice(by_part[pa]), rng.choice(by_part[pb])
+        if i % 2 == 1:
+            # the user's own entry point for that kind does not lift the rule: the generated wrapper is still there
+            p["overrides"] = [{"kind": kind, "fn": f"ov_{kind}", "msg": "svmon::OvMsg"}]
         # twin without the clash
         mods[f"ok{i:03d}"] = render.R(p).source(with_glue=False)
         meta[f"ok{i:03d}"] = {"expect": "accept", "kind": kind}
@@ -146,7 +149,7 @@ def collision_programs(ctx):
             continue
         hb2["name"] = ha["name"]
         mods[f"cl{i:03d}"] = render.R(c).source(with_glue=False)
-        meta[f"cl{i:03d}"] = {"expect": "reject", "kind": kind, "name": ha["name"], "parts": [pa, pb]}
+        meta[f"cl{i:03d}"] = {"expect": "reject", "kind": kind, "name": ha["name"], "parts": [pa, pb], "overridden": bool(c.get("overrides"))}
         i += 1
     return mods, meta
 
